@@ -89,7 +89,7 @@ def generate(seed, run, tier):
     # looking at a mapping is itself a sequence of calls on it: how often the clients look is
     # part of the schedule (operation results are always checked; everything is read at the end)
     observe_rate = rs.choice([1.0, 1.0, 0.5, 0.15, 0.0])
-    for _ in range(rs.choice([5, 15, 30, 60])):
+    for _ in range(rs.choice([5, 15, 30, 60] if tier == "quick" else [5, 15, 30, 60, 120])):
         k = rq.choice(kinds)
         st = {"h": rq.randrange(4), "op": k, "observe": rq.random() < observe_rate}
         if k in ("set", "setdefault"):
